@@ -509,7 +509,11 @@ func runScenario(sc *scenario, tr *hx.Trace, base string) {
 			}
 			break
 		}
-		if fr >= leaderRight && (appended || sc.appendN == 0 || lw == nil) && sc.leader.Right > sc.leader.Left && calls >= 1 && int(api.sent.Load()) >= 2 {
+		needCalls := 1
+		if sc.fkind == "ahead" || sc.fkind == "otherid-ahead" {
+			needCalls = 2 // the answer to the sync request itself has to be seen
+		}
+		if fr >= leaderRight && (appended || sc.appendN == 0 || lw == nil) && sc.leader.Right > sc.leader.Left && calls >= needCalls && int(api.sent.Load()) >= 2 {
 			break
 		}
 		time.Sleep(300 * time.Microsecond)
